@@ -43,7 +43,7 @@ Lemma replace_first_spec : forall l t c,
 Proof.
   induction l as [|x r IH]; intros t c; [reflexivity|].
   unfold count_tie in *. simpl.
-  destruct x as [| |k| |]; simpl; try (rewrite IH; destruct (length _); reflexivity).
+  destruct x as [| |k| | |]; simpl; try (rewrite IH; destruct (length _); reflexivity).
   destruct (key_eqb k t); simpl.
   - rewrite subst_occ_nil. reflexivity.
   - rewrite IH. destruct (length _); reflexivity.
@@ -113,7 +113,7 @@ Proof.
   - simpl. destruct (is_key x t) eqn:Hx; simpl.
     + destruct repl as [|c rest]; simpl.
       * rewrite Hx. simpl. f_equal.
-        { destruct x as [| |k| |]; try discriminate Hx. simpl in Hx. apply key_eqb_eq in Hx. subst. reflexivity. }
+        { destruct x as [| |k| | |]; try discriminate Hx. simpl in Hx. apply key_eqb_eq in Hx. subst. reflexivity. }
         specialize (IH t [] (Nat.le_0_l _)). rewrite subst_occ_nil in IH. simpl in IH. rewrite Nat.sub_0_r in IH. exact IH.
       * rewrite Hx. simpl. f_equal. apply IH. simpl in Hle. rewrite Hx in Hle. simpl in Hle. lia.
     + rewrite Hx. simpl. apply IH. simpl in Hle. rewrite Hx in Hle. exact Hle.
@@ -261,9 +261,9 @@ Lemma closed_list_spec : forall pl party n l,
                length (firstn (Z.to_nat n) ll) = Nat.min (Z.to_nat n) (length ll).
 Proof.
   intros pl party n l H Hn. unfold closed_list, subscript in H.
-  destruct pl as [| | | |d]; try discriminate H.
+  destruct pl as [| | | |d|]; try discriminate H.
   destruct (dget d party) as [v|] eqn:Hg; [|discriminate H]. cbn [rbind] in H.
-  destruct v as [| | |ll|]; try discriminate H.
+  destruct v as [| | |ll| |]; try discriminate H.
   unfold slice_to in H. destruct (0 <=? n) eqn:Hle; [|apply Z.leb_gt in Hle; lia].
   inversion H; subst. exists d, ll. split; [reflexivity|]. split; [exact Hg|]. split; [reflexivity|]. apply firstn_length.
 Qed.
